@@ -106,6 +106,10 @@ def main(argv=None) -> int:  # noqa: C901
     soft_s = meta.get("soft_s", {}).get(tier, 240.0 if tier == "quick" else 2400.0)
     hard_s = soft_s * 1.5 + 300
 
+    try:
+        env.ensure_deps()  # once, in the parent: the workers must not race to install icontract
+    except Exception:  # noqa: BLE001
+        pass
     results = run_shards(prop, tier, seed, nshards, soft_s, hard_s)
 
     fatal = [r["fatal"] for r in results if "fatal" in r]
